@@ -34,11 +34,13 @@ type Mutex struct {
 func (m *Mutex) TryLock() bool {
 	// fast path ：如果能成功抢到锁则直接返回
 	// 下面这一句就是直接对应着sync.Mutex中Lock()方法，一模一样翻译过来的
+	verifYield(VerifSiteTryLockCas1)
 	if atomic.CompareAndSwapInt32((*int32)(unsafe.Pointer(&m.Mutex)), 0, mutexLocked) {
 		return true
 	}
 
 	// 如果处于唤醒、加锁或者饥饿状态，这次请求就不参与竞争了，返回false
+	verifYield(VerifSiteTryLockLoad)
 	old := atomic.LoadInt32((*int32)(unsafe.Pointer(&m.Mutex)))
 	if old&(mutexLocked|mutexStarving|mutexWoken) != 0 {
 		return false
@@ -46,6 +48,7 @@ func (m *Mutex) TryLock() bool {
 
 	// 尝试在竞争的状态下请求锁
 	next := old | mutexLocked
+	verifYield(VerifSiteTryLockCas2)
 	return atomic.CompareAndSwapInt32((*int32)(unsafe.Pointer(&m.Mutex)), old, next)
 }
 
